@@ -217,6 +217,7 @@ func runC18(r *core.Run) int {
 		}
 		if i%5 == 4 {
 			pc = makePattern(i, rng, [3]int{0, 0, 1}, 0)
+			noteCtx(l, pc)
 			if pc == nil {
 				return
 			}
